@@ -50,8 +50,10 @@ type c04Env struct {
 	// zzsym.Choice per call.
 	localPlan []int
 	folPlan   []int
-	probeFail bool // every recovery probe submission is refused
-	loadFail  bool // ReplicaStore.Load fails
+	// recovery behaviour, decided when recovery first reaches the port: 0 = decide by zzsym.Choice,
+	// 1 = works, 2 = fails (every probe submission refused / ReplicaStore.Load fails)
+	probeMode int
+	loadMode  int
 
 	// the cluster log: `log` holds every proposal that is durable on the local store, in order.
 	// Followers and the committed frontier are reported identical to the local store.
@@ -119,7 +121,10 @@ func (e *c04Env) probeEntries(indexes []uint64) []EntryProbe {
 // --- recoveryDispatcher
 func (e *c04Env) submitRecoveryProbe(_ context.Context, query recoveryProbeQuery, complete func(ProbeResult, error)) error {
 	e.probes++
-	if e.probeFail {
+	if e.probeMode == 0 {
+		e.probeMode = 1 + zzsym.Choice("probe.fails", 2)
+	}
+	if e.probeMode == 2 {
 		return &c04PortErr{}
 	}
 	request := ProbeRequest{ChannelKey: query.ChannelKey, ChannelID: query.ChannelID, Leader: query.Leader, Follower: query.Voter, Indexes: query.Indexes}
@@ -135,7 +140,10 @@ func (e *c04Env) submitRecoveryFetch(_ context.Context, _ recoveryFetchQuery, _ 
 // --- ReplicaStore + commandStore
 func (e *c04Env) Load(_ context.Context, batch LoadBatch) (LoadBatchResult, error) {
 	e.loads++
-	if e.loadFail {
+	if e.loadMode == 0 {
+		e.loadMode = 1 + zzsym.Choice("load.fails", 2)
+	}
+	if e.loadMode == 2 {
 		return LoadBatchResult{}, &c04PortErr{}
 	}
 	var out LoadBatchResult
@@ -303,8 +311,8 @@ func c04Topology(name string, n int) ([]ch.NodeID, int) {
 }
 
 // c04Fence: no fence, an active fence, or a token with version 0 (which is not an active fence).
-func c04Fence(name string) ch.WriteFence {
-	switch zzsym.Choice(name+".fence.kind", 3) {
+func c04Fence(name string, kinds int) ch.WriteFence {
+	switch zzsym.Choice(name+".fence.kind", kinds) {
 	case 0:
 		return ch.WriteFence{}
 	case 1:
@@ -317,8 +325,12 @@ func c04Fence(name string) ch.WriteFence {
 }
 
 func c04Authority(name string, topologies int) Authority {
+	return c04AuthorityF(name, topologies, 3)
+}
+
+func c04AuthorityF(name string, topologies, fenceKinds int) Authority {
 	voters, quorum := c04Topology(name, topologies)
-	a := Authority{Key: c04Key, ChannelID: c04ChanID, ID: c04SymID(name), Leader: c04Local, Voters: voters, WriteQuorum: quorum, WriteFence: c04Fence(name)}
+	a := Authority{Key: c04Key, ChannelID: c04ChanID, ID: c04SymID(name), Leader: c04Local, Voters: voters, WriteQuorum: quorum, WriteFence: c04Fence(name, fenceKinds)}
 	zzsym.Assume(a.ID.ChannelEpoch != 0 && a.ID.LeaderTerm != 0 && a.ID.FenceVersion != 0)
 	return a
 }
@@ -389,19 +401,24 @@ func c04Closed(s *quorumChannel) bool {
 // are enumerated / symbolic.
 func c04InstalledChannel(l *quorumLog, a Authority) *quorumChannel {
 	s := &quorumChannel{id: a.ChannelID, authority: cloneAuthority(a), retained: make(map[ch.CommandID]retainedProposal, l.cfg.MaxRetainedCommands)}
-	s.ready = zzsym.Choice("pre.ready", 2) == 1
+	kinds := 3
+	if zzsym.Thorough() {
+		kinds = 5
+	}
+	kind := zzsym.Choice("pre.kind", kinds) // 0 not ready, 1 ready+empty, 2 ready+retained+pending, 3 ready+retained, 4 ready+pending
+	s.ready = kind != 0
 	if s.ready {
 		s.frontier.LEO = zzsym.U64("pre.leo")
 		s.frontier.Committed = zzsym.U64("pre.committed")
 		s.hw = s.frontier.LEO
-		if zzsym.Choice("pre.retained", 2) == 1 {
+		if kind == 2 || kind == 3 {
 			cmd := c04Command(1)
 			first := zzsym.U64("pre.retained.first")
 			receipt := Receipt{Authority: a.ID, CommandID: cmd, First: first, Last: first, HW: first}
 			s.retained[cmd] = retainedProposal{proposal: durableProposal{first: first, last: first}, receipt: receipt, durable: true}
 			s.order = append(s.order, cmd)
 		}
-		if zzsym.Choice("pre.pending", 2) == 1 {
+		if kind == 2 || kind == 4 {
 			p := retainedProposal{proposal: durableProposal{first: s.frontier.LEO + 1, last: s.frontier.LEO + 1}}
 			p.proposal.manifest.CommandID = c04Command(2)
 			s.pending = &p
@@ -440,19 +457,35 @@ func Harness_C04_CompareOrder() {
 func Harness_C04_InstallOrdering() {
 	env := &c04Env{}
 	l := c04NewLog(env, 2)
-	a := c04Authority("A", 2)
+	fenceKinds := 2
+	if zzsym.Thorough() {
+		fenceKinds = 3
+	}
+	a := c04AuthorityF("A", 2, fenceKinds)
 	s := c04InstalledChannel(l, a)
 	pre := c04Snapshot(s)
 
-	b := c04Authority("B", 4)
-	// how the recovery of an admitted Install behaves: refused probes, failing local load, or a
-	// quorum proof of the empty log
-	switch zzsym.Choice("recovery", 3) {
-	case 0:
-		env.probeFail = true
-	case 1:
-		env.loadFail = true
+	b := c04Authority("B", 1)
+	switch zzsym.Choice("B.topology.vs.A", 3) {
+	case 0: // the same voters and quorum
+		b.Voters, b.WriteQuorum = append([]ch.NodeID(nil), a.Voters...), a.WriteQuorum
+	case 1: // other voter set (and quorum)
+		if len(a.Voters) == 1 {
+			b.Voters, b.WriteQuorum = []ch.NodeID{1, 2, 3}, 2
+		} else {
+			b.Voters, b.WriteQuorum = []ch.NodeID{1}, 1
+		}
+	default: // same voter set, other quorum / other order
+		if len(a.Voters) == 1 {
+			b.Voters, b.WriteQuorum = []ch.NodeID{1, 2}, 2
+		} else if zzsym.Choice("B.topology.variant", 2) == 0 {
+			b.Voters, b.WriteQuorum = []ch.NodeID{1, 2, 3}, 3
+		} else {
+			b.Voters, b.WriteQuorum = []ch.NodeID{1, 3, 2}, 2
+		}
 	}
+	// the recovery of an admitted Install meets refused probes, a failing local load, or a quorum
+	// proof of the empty log (decided by the fakes when recovery reaches them)
 	order := c04Lex(b.ID, a.ID)
 	same := b.WriteQuorum == a.WriteQuorum && b.WriteFence == a.WriteFence && c04SameVoters(b.Voters, a.Voters)
 
@@ -515,7 +548,7 @@ func Harness_C04_InstallOrdering() {
 			zzsym.Reach("install: newer authority, ready")
 			zzsym.Assert(!b.WriteFence.Set(), "a fenced authority became ready")
 			zzsym.Assert(s.ready && installed == Installed{Authority: b.ID}, "successful Install over the empty log is not ready at LEO 0")
-			zzsym.Assert(env.probeFail == false && env.loadFail == false, "Install succeeded although recovery failed")
+			zzsym.Assert(env.probeMode == 1 && env.loadMode == 1, "Install succeeded although recovery failed")
 		}
 	}
 }
@@ -525,6 +558,7 @@ func Harness_C04_InstallOrdering() {
 func Harness_C04_InstallFirst() {
 	env := &c04Env{}
 	l := c04NewLog(env, 2)
+	env.probeMode, env.loadMode = 1, 1
 	b := c04Authority("B", 2)
 	installed, err := l.Install(context.Background(), b)
 	s := l.channels[c04Key]
@@ -558,6 +592,7 @@ func Harness_C04_InstallBarrier() {
 	zzsym.Assume(!a.WriteFence.Set())
 	env.localPlan = []int{c04LocalHonest}
 	env.folPlan = []int{c04FolDurable, c04FolDurable}
+	env.probeMode, env.loadMode = 1, 1
 	_, err := l.Install(context.Background(), a)
 	zzsym.Assert(err == nil, "Install(A) over the empty log failed")
 	first, err := l.Commit(context.Background(), Proposal{Key: c04Key, Expected: a.ID, CommandID: c04Command(1), Records: []ch.Record{c04Record("r1", a.ID.ChannelEpoch)}})
@@ -569,6 +604,7 @@ func Harness_C04_InstallBarrier() {
 	b := c04Authority("B", 1)
 	b.Voters, b.WriteQuorum = a.Voters, a.WriteQuorum
 	zzsym.Assume(c04Lex(b.ID, a.ID) > 0)
+	env.probeMode = 0 // probes of the second recovery are refused or answered
 
 	installed, err := l.Install(context.Background(), b)
 
@@ -643,8 +679,9 @@ func Harness_C04_CommitGates() {
 		if err == nil {
 			zzsym.Reach("commit: acknowledged")
 		}
-		if pre.pending == nil && !(pre.hasCmd1 && p.CommandID == c04Command(1)) {
-			zzsym.Assert(env.localSubmits == 1, "an admitted new command was not submitted to the local store exactly once")
+		if pre.pending == nil && !(pre.hasCmd1 && p.CommandID == c04Command(1)) && pre.frontier.LEO == 0 {
+			// (the directly built frontier has no tail identity, so only LEO 0 can be sealed)
+			zzsym.Assert(env.localSubmits == 1, "an admitted new command on the empty frontier was not submitted to the local store exactly once")
 		}
 	}
 	// an unknown channel is never ready
@@ -665,6 +702,7 @@ func Harness_C04_TwoStep() {
 	l := c04NewLog(env, 2)
 	a := c04Authority("A", 2)
 	zzsym.Assume(!a.WriteFence.Set())
+	env.probeMode, env.loadMode = 1, 1
 	_, err := l.Install(context.Background(), a)
 	zzsym.Assert(err == nil, "Install(A) over the empty log failed")
 	if err != nil {
@@ -694,9 +732,7 @@ func Harness_C04_TwoStep() {
 	b := c04Authority("B", 1)
 	b.Voters, b.WriteQuorum = a.Voters, a.WriteQuorum
 	zzsym.Assume(c04Lex(b.ID, a.ID) > 0)
-	if zzsym.Choice("second.recovery", 2) == 1 {
-		env.probeFail = true
-	}
+	env.probeMode = 0 // the second recovery either has its probes refused or succeeds
 	env.localPlan, env.folPlan = []int{c04LocalHonest}, []int{c04FolDurable, c04FolDurable} // a barrier round, if any, is durable
 	_, errB := l.Install(context.Background(), b)
 	env.localPlan, env.folPlan = nil, nil
